@@ -177,3 +177,23 @@ CHECKS["C08"] = dict(
     assumptions=["near / Gaussian sampling is always called with an in-bounds centre",
                  "a valid-state sampler returning false is always acceptable"],
 )
+
+CHECKS["C05"] = dict(
+    src="harness/C05_motion.cpp",
+    cases=dict(quick=150000, thorough=3000000),
+    fuzz=dict(runs=2000000, maxlen=500),
+    rule="Case = generated space (as C06; Dubins / Reeds-Shepp spaces get their own motion validator in 75% of cases) x "
+         "longest_valid_segment_fraction (0.01 or log-uniform 0.002..0.2) x count factor 1..3 x in-bounds pair (relation classes as C06) x "
+         "index-targeted predicate realised by a recording checker: a generated set of invalid subdivision indices (none / one / 2..5 / only "
+         "the end state), so the first invalid index is spread over 1..n. Reference = harness loop valid(s2) and all k/n points valid. Oracle: both overloads return the reference verdict; the bisection "
+         "overload only queries unvisited k/n points and all of them on success; on failure the fraction is exactly (j-1)/n in [0,1) and the "
+         "returned state is bit-identical to interpolate(s1,s2,fraction), also when the output aliases s2 or s1; on success the caller's pair is "
+         "untouched; each call advances exactly the right counter by one; the state-list helper agrees with 'all listed states valid / first "
+         "invalid index' for count 0..40. Non-trivial = n >= 3 and an invalid point strictly inside; distinct = consumed byte prefix.",
+    technique="property-based testing against a reference subdivision loop with a recording, index-targeted validity checker; libFuzzer in thorough",
+    level_text="Generated spaces, resolutions, pairs and index-targeted predicates are decided by the harness's own subdivision loop and "
+               "compared with both overloads of all three validators; exploration-level.",
+    level_note="Trusted: the harness reference loop (uses the space's interpolate and validSegmentCount, which C07 and the space tests "
+               "cover separately) and bit-exact state images from the space's own serialization.",
+    assumptions=["s1 is valid and both states are in bounds (documented precondition of checkMotion)"],
+)
